@@ -35,7 +35,10 @@ def cursor_trace(tid, rng, cls_name, n, hist_len, small=False):
     perm = list(range(n))
     rng.shuffle(perm)                      # samples[k] = perm[k]: position k holds sample perm[k]
     Ypos = [rng.randint(0, ymax) for _ in range(n)]
-    Wpos = [1 if linear else rng.randint(1, 3) for _ in range(n)]
+    # weights of the constant criteria include exact zeros (rows that count for nothing; a range without weight is not claimed)
+    Wpos = [1 if linear else rng.choice([0, 1, 1, 2, 3]) for _ in range(n)]
+    if not linear and sum(Wpos) == 0:
+        Wpos[0] = 1
     Xpos = [rng.randint(0, xmax) if linear else 0 for _ in range(n)]
     y = numpy.zeros((n, 1))
     w = numpy.zeros((n,))
@@ -63,7 +66,10 @@ def cursor_trace(tid, rng, cls_name, n, hist_len, small=False):
         elif kind == "q_proxy":
             ev.append(dict(a=kind, **proj(C._test_criterion_proxy_impurity_improvement(crit))))
         elif kind == "q_improvement":
-            # as the splitter does: impurity_improvement(parent impurity, children impurities)
+            # as the splitter does: impurity_improvement(parent impurity, children impurities); a node without weight has
+            # no improvement (scikit-learn never builds one)
+            if sum(Wpos[s:e]) == 0:
+                return
             p_ = C._test_criterion_node_impurity(crit)
             l_, r_ = C._test_criterion_node_impurity_children(crit)
             ev.append(dict(a=kind, wtot=int(wtot), **proj(C._test_criterion_impurity_improvement(crit, p_, l_, r_))))
@@ -95,7 +101,10 @@ def leaf_traces(tid0, rng, criterion, count):
     # the unit of the feature is the caller's business: the same integers times a power of two (exact in floating
     # point) give the same leaves and the same per-leaf least squares, so the trace keeps the unscaled integers
     unit = 2.0 ** rng.choice([0, 0, 20, 33, -20])
-    X = numpy.array(xs, dtype=numpy.float64).reshape((-1, 1)) * unit
+    # ... and so is its origin: with an offset that single precision cannot hold (4096.61) the per-leaf least squares,
+    # which is translation invariant, is still evaluated at the row as given (float64)
+    origin = 4096.61 if unit == 1.0 and rng.random() < 0.4 else 0.0
+    X = numpy.array(xs, dtype=numpy.float64).reshape((-1, 1)) * unit + origin
     y = numpy.array(ys, dtype=numpy.float64)
     md = rng.choice([1, 2, 3])
     msl = rng.choice([1, 2, 3, 5])
@@ -105,7 +114,7 @@ def leaf_traces(tid0, rng, criterion, count):
         # an earlier life of the instance with the OTHER criterion, another depth and other rows
         model.set_params(criterion="simple" if criterion == "mselin" else "mselin", max_depth=rng.choice([1, 2, 4]))
         try:
-            model.fit(X[::-1][: max(4, n // 2)] + unit, y[: max(4, n // 2)][::-1] * 2)
+            model.fit(X[::-1][: max(4, n // 2)] + unit, y[: max(4, n // 2)][::-1] * 2)       # (other rows)
             model.predict(X[:3])
         except Exception:
             pass
@@ -113,7 +122,7 @@ def leaf_traces(tid0, rng, criterion, count):
     model.fit(X, y)
     train_leaf = model.apply(X)
     probes = [rng.choice(xs) for _ in range(count - 2)] + [-1, 14]
-    P = numpy.array(probes, dtype=numpy.float64).reshape((-1, 1)) * unit
+    P = numpy.array(probes, dtype=numpy.float64).reshape((-1, 1)) * unit + origin
     pl = model.apply(P)
     pred = model.predict(P)
     depth = int(model.tree_.max_depth)
@@ -122,7 +131,7 @@ def leaf_traces(tid0, rng, criterion, count):
         out.append(dict(id=tid0 + q, kind="leaf", ckind="const", Y=[0], W=[1], X=[0],
                         lx=[xs[k] for k in rows], ly=[ys[k] for k in rows], msl=msl, max_depth=md, criterion=criterion,
                         ev=[dict(a="leaf", x=int(x), depth=depth, **proj(pred[q]))],
-                        site="mlmodel.PiecewiseTreeRegressor(criterion=%r)" % criterion, sig="predict unit=%g%s" % (unit, " refit" if prior else "")))
+                        site="mlmodel.PiecewiseTreeRegressor(criterion=%r)" % criterion, sig="predict unit=%g%s%s" % (unit, " origin" if origin else "", " refit" if prior else "")))
     return out, (model.criterion == criterion)
 
 
@@ -217,6 +226,9 @@ def sweep_events(t, cls_name, n):
                 l_, r_ = C._test_criterion_node_impurity_children(crit)
                 ev.append(dict(a="q_left", **proj(l_)))
                 ev.append(dict(a="q_right", **proj(r_)))
+                if w[s:e].sum() == 0:
+                    ev.append(dict(a="q_proxy", **proj(C._test_criterion_proxy_impurity_improvement(crit))))
+                    continue
                 pi = C._test_criterion_node_impurity(crit)
                 ev.append(dict(a="q_improvement", wtot=int(wtot), **proj(C._test_criterion_impurity_improvement(crit, pi, l_, r_))))
                 ev.append(dict(a="q_proxy", **proj(C._test_criterion_proxy_impurity_improvement(crit))))
